@@ -49,6 +49,10 @@ type plCase struct {
 	// Mirror (ipfix, sflow): mirroring is on; the workers queue a copy of every datagram for the mirror, which this
 	// rig reads only after each phase (a mirror that has fallen behind or stopped): neither must hold a worker up
 	Mirror bool `json:"mirror,omitempty"`
+	// MirrorWorkers > 0 (with Mirror): the copies go through the real dispatcher with that many mirror workers, which
+	// reads the workers' mirror queue while the phases run (the collector's own wiring); the mirror target is an IPv4
+	// address, so copies of datagrams from IPv6 exporters find no mirror worker to take them
+	MirrorWorkers int `json:"mirror_workers,omitempty"`
 	// Subset: indexes of phases with more than 1000 publishing datagrams, which overflow the message queue (by
 	// construction under a slow consumer, possibly otherwise): what is published there must be a sub-multiset of
 	// the expected payloads, nothing more
@@ -499,6 +503,35 @@ func genPipeline(t *rapid.T, proto string, envs map[string]*wire.GenEnv, maxPhas
 			c.Phases = append(c.Phases, flood)
 		}
 	}
+	if proto == "ipfix" && c.Mirror && rapid.Bool().Draw(t, "mirrorbacklog") {
+		// the mirror is configured for the other address family than one busy exporter's: more than a thousand of
+		// its copies find no taker, then datagrams of strongly different sizes follow: whatever becomes of the copies,
+		// every datagram is received, decoded and published as if mirroring were off
+		c.MirrorWorkers = rapid.SampledFrom([]int{1, 2, 5}).Draw(t, "mirrorworkers")
+		c.LazyDrain = false
+		c.Exporters = append(c.Exporters, wire.Hex{0x20, 0x01, 0x0d, 0xb8, 0, 0, 0, 0, 0, 0, 0, 0, 0, 0, 0, 0x77})
+		v6 := len(c.Exporters) - 1
+		selfContained := func(id uint16, nrec int) []byte {
+			tp := wire.Template{ID: id, Fields: []wire.Field{{ID: 8, Len: 4, Type: wire.TIPv4}, {ID: 12, Len: 4, Type: wire.TIPv4}, {ID: 1, Len: 8, Type: wire.TUint64}, {ID: 2, Len: 8, Type: wire.TUint64}}}
+			var recs []wire.Record
+			for r := 0; r < nrec; r++ {
+				recs = append(recs, wire.Record{Vals: []wire.Hex{{10, 7, byte(r), 1}, {10, 8, byte(r), 2}, {0, 0, 0, 0, 0, 0, byte(id), byte(r)}, {0, 0, 0, 0, 0, 0, 1, byte(r)}}})
+			}
+			m := wire.Msg{Proto: "ipfix", Seq: nextSeq(), Time: 1700000000, Domain: 6, Sets: []wire.Set{{Kind: "tpl", Tpls: []wire.Template{tp}}, {Kind: "data", Tpl: &tp, Recs: recs}}}
+			return m.Bytes()
+		}
+		var flood []plDatagram
+		for i, n := 0, rapid.IntRange(1030, 1150).Draw(t, "mbn"); i < n; i++ {
+			flood = append(flood, plDatagram{Exp: v6, Data: selfContained(50000, 1), Class: "valid"})
+		}
+		c.Subset = append(c.Subset, len(c.Phases))
+		c.Phases = append(c.Phases, flood)
+		var mixed []plDatagram
+		for i, n := 0, rapid.IntRange(40, 300).Draw(t, "mbmixed"); i < n; i++ {
+			mixed = append(mixed, plDatagram{Exp: v6, Data: selfContained(50001, 1), Class: "valid"}, plDatagram{Exp: v6, Data: selfContained(50002, 20), Class: "valid"})
+		}
+		c.Phases = append(c.Phases, mixed)
+	}
 	// boundary of the receive buffer: its size is set to the length of one of the case's own datagrams (or one
 	// octet less / more), so some datagrams fill the buffer exactly, some are cut by one octet, some just fit
 	if rapid.IntRange(0, 2).Draw(t, "exactfit") == 0 {
@@ -600,6 +633,10 @@ func runPipeline(prop string, c *plCase) (v verdict, sig string, err error) {
 		shard, _ := strconv.Atoi(os.Getenv("VERIF_SHARD_INDEX"))
 		req.Mirror, req.MirrorDst, req.MirrorPort = true, fmt.Sprintf("127.%d.250.9", 1+shard%200), 9
 		v.label(true, "mirroring-on")
+		if c.MirrorWorkers > 0 {
+			req.MirrorWorkers, req.MirrorLive = c.MirrorWorkers, true
+			v.label(true, "mirror-dispatcher-with-a-backlog-nobody-takes")
+		}
 	}
 	for _, ph := range c.Phases {
 		for _, d := range ph {
